@@ -136,40 +136,6 @@ theorem value_after (n : Nat) (wf : W) (hk : wf.k.key = n) (hg : wf.gone = false
   have := commit_getKey wf hg
   rw [hk] at this; exact this
 
-/-- re-lock (`L1f`): `locked` already counts the new level -/
-theorem relock_value (db : DB) (c : Cmd) (data : Option Bytes) (h : Nat) (f : Bytes) (cell' : Option Cell)
-    (hf : frameOf c data = some f)
-    (hp : processFrame (ctxAt (db.getKey c.key) ((db.getKey c.key).locked + 1) .lock c) (db.getKey c.key).cell f = .ok cell') :
-    vstrip ((applyLock db c data (.relock h)).commit.getKey c.key).cell = vstrip cell' := by
-  have hkey := applyLock_key db c data (.relock h)
-  simp only [applyLock] at hkey ⊢
-  rw [hf] at hkey ⊢
-  have hspec := procData_spec (((db.enter c.key).modR h (fun r => { r with depth := r.depth + 1 })).modK incLocked) .lock c f h cell'
-    (by simpa [frameCtx, ctxAt, incLocked, enter_k] using hp)
-  rw [← hspec.1]
-  have q := ((FQ.updateLocked ((((db.enter c.key).modR h (fun r => { r with depth := r.depth + 1 })).modK incLocked).procData .lock c (some f) h) h c).trans
-    (FQ.journalLock _ h AOF_UPDATED)).trans (FQ.ctr _ (fun x => { x with lockCount := x.lockCount + 1, lockedCount := x.lockedCount + 1 }))
-  rw [value_after c.key _ hkey (by simp only [reply_gone]; rw [q.qt.gone]; simp [enter_gone])]
-  simp only [reply_k]; exact q.qt.cell
-
-/-- update (`L1d`, answered LOCKED_ERROR, which the reading note of C15 counts as accepted) -/
-theorem update_value (db : DB) (c : Cmd) (data : Option Bytes) (h : Nat) (f : Bytes) (cell' : Option Cell)
-    (hf : frameOf (lockCmdOf (db.getKey c.key) c (.update h)) data = some f)
-    (hp : processFrame (ctxAt (db.getKey c.key) (db.getKey c.key).locked .lock (lockCmdOf (db.getKey c.key) c (.update h)))
-      (db.getKey c.key).cell f = .ok cell') :
-    vstrip ((applyLock db c data (.update h)).commit.getKey c.key).cell = vstrip cell' := by
-  have hkey := applyLock_key db c data (.update h)
-  simp only [applyLock] at hkey ⊢
-  rw [enter_k, hf] at hkey ⊢
-  have hspec := procData_spec (db.enter c.key) .lock (lockCmdOf (db.getKey c.key) c (.update h)) f h cell'
-    (by simpa [frameCtx, ctxAt, enter_k] using hp)
-  rw [← hspec.1]
-  have q := (FQ.updateLocked ((db.enter c.key).procData .lock (lockCmdOf (db.getKey c.key) c (.update h)) (some f) h) h
-    (lockCmdOf (db.getKey c.key) c (.update h))).trans
-    (FQ.when _ (!has (lockCmdOf (db.getKey c.key) c (.update h)).flag Slock.Engine.F_FROM_AOF) (·.journalLock h AOF_UPDATED) (FQ.journalLock _ _ _))
-  rw [value_after c.key _ hkey (by simp only [reply_gone]; rw [q.qt.gone]; simp [enter_gone])]
-  simp only [reply_k]; exact q.qt.cell
-
 theorem pushUnLockAof_waited (w : W) (rid : Nat) (lc : Cmd) (fa ia : Bool) (flag : Nat) :
     (w.pushUnLockAof rid lc fa ia flag).k.waited = w.k.waited := by
   unfold W.pushUnLockAof
@@ -186,6 +152,87 @@ theorem journalUnlock_waited (w : W) (rid : Nat) (a b : Bool) (fl : Nat) : (w.jo
   · rfl
 
 theorem wake_of_not_waited (w : W) (h : w.k.waited = false) : w.wake = w := by unfold W.wake; rw [h]; rfl
+
+theorem pushLockAof_waited (w : W) (rid flag : Nat) : (w.pushLockAof rid flag).k.waited = w.k.waited := by
+  unfold W.pushLockAof
+  split
+  · rfl
+  · simp only []
+    split
+    · rfl
+    · exact aofLockData_waited w.k true rid
+
+theorem pushLockAofN_waited (n : Nat) (w : W) (rid : Nat) : (W.pushLockAofN n w rid).k.waited = w.k.waited := by
+  induction n generalizing w with
+  | zero => rfl
+  | succ n ih => unfold W.pushLockAofN; exact (ih _).trans (pushLockAof_waited _ _ _)
+
+theorem journalLock_waited (w : W) (rid flag : Nat) : (w.journalLock rid flag).k.waited = w.k.waited := by
+  unfold W.journalLock W.when
+  split
+  · exact pushLockAof_waited _ _ _
+  · rfl
+
+theorem addExpried_waited (w : W) (rid : Nat) : (w.addExpried rid).k.waited = w.k.waited := by
+  unfold W.addExpried W.when
+  simp only []
+  split
+  · exact (pushLockAofN_waited _ _ _).trans rfl
+  · rfl
+
+theorem updateLocked_waited (w : W) (rid : Nat) (c : Cmd) : (w.updateLocked rid c).k.waited = w.k.waited := by
+  unfold W.updateLocked W.when
+  simp only []
+  split
+  · show (((w.modR rid _).removeLongE rid).addExpried rid).k.waited = w.k.waited
+    rw [addExpried_waited]; rfl
+  · rfl
+
+/-- re-lock (`L1f`) on a key nobody waits for (a wake pass follows the reply): `locked` already counts the new level -/
+theorem relock_value (db : DB) (c : Cmd) (data : Option Bytes) (h : Nat) (f : Bytes) (cell' : Option Cell)
+    (hw : (db.getKey c.key).waited = false) (hf : frameOf c data = some f)
+    (hp : processFrame (ctxAt (db.getKey c.key) ((db.getKey c.key).locked + 1) .lock c) (db.getKey c.key).cell f = .ok cell') :
+    vstrip ((applyLock db c data (.relock h)).commit.getKey c.key).cell = vstrip cell' := by
+  have hkey := applyLock_key db c data (.relock h)
+  simp only [applyLock] at hkey ⊢
+  rw [hf] at hkey ⊢
+  have hspec := procData_spec (((db.enter c.key).modR h (fun r => { r with depth := r.depth + 1 })).modK incLocked) .lock c f h cell'
+    (by simpa [frameCtx, ctxAt, incLocked, enter_k] using hp)
+  rw [← hspec.1]
+  have q := ((FQ.updateLocked ((((db.enter c.key).modR h (fun r => { r with depth := r.depth + 1 })).modK incLocked).procData .lock c (some f) h) h c).trans
+    (FQ.journalLock _ h AOF_UPDATED)).trans (FQ.ctr _ (fun x => { x with lockCount := x.lockCount + 1, lockedCount := x.lockedCount + 1 }))
+  rw [wake_of_not_waited _ (by
+    simp only [reply_k, ctr_k]
+    rw [journalLock_waited, updateLocked_waited, procData_waited]
+    show (db.enter c.key).k.waited = false
+    rw [enter_k]; exact hw)] at hkey ⊢
+  rw [value_after c.key _ hkey (by simp only [reply_gone]; rw [q.qt.gone]; simp [enter_gone])]
+  simp only [reply_k]; exact q.qt.cell
+
+/-- update (`L1d`, answered LOCKED_ERROR, which the reading note of C15 counts as accepted) -/
+theorem update_value (db : DB) (c : Cmd) (data : Option Bytes) (h : Nat) (f : Bytes) (cell' : Option Cell)
+    (hw : (db.getKey c.key).waited = false) (hf : frameOf (lockCmdOf (db.getKey c.key) c (.update h)) data = some f)
+    (hp : processFrame (ctxAt (db.getKey c.key) (db.getKey c.key).locked .lock (lockCmdOf (db.getKey c.key) c (.update h)))
+      (db.getKey c.key).cell f = .ok cell') :
+    vstrip ((applyLock db c data (.update h)).commit.getKey c.key).cell = vstrip cell' := by
+  have hkey := applyLock_key db c data (.update h)
+  simp only [applyLock] at hkey ⊢
+  rw [enter_k, hf] at hkey ⊢
+  have hspec := procData_spec (db.enter c.key) .lock (lockCmdOf (db.getKey c.key) c (.update h)) f h cell'
+    (by simpa [frameCtx, ctxAt, enter_k] using hp)
+  rw [← hspec.1]
+  have q := (FQ.updateLocked ((db.enter c.key).procData .lock (lockCmdOf (db.getKey c.key) c (.update h)) (some f) h) h
+    (lockCmdOf (db.getKey c.key) c (.update h))).trans
+    (FQ.when _ (!has (lockCmdOf (db.getKey c.key) c (.update h)).flag Slock.Engine.F_FROM_AOF) (·.journalLock h AOF_UPDATED) (FQ.journalLock _ _ _))
+  rw [wake_of_not_waited _ (by
+    simp only [reply_k]
+    have hwhen : ∀ (w : W) (b : Bool), (w.when b (·.journalLock h AOF_UPDATED)).k.waited = w.k.waited := by
+      intro w b; cases b
+      · rfl
+      · exact journalLock_waited w h AOF_UPDATED
+    rw [hwhen, updateLocked_waited, procData_waited, enter_k]; exact hw)] at hkey ⊢
+  rw [value_after c.key _ hkey (by simp only [reply_gone]; rw [q.qt.gone]; simp [enter_gone])]
+  simp only [reply_k]; exact q.qt.cell
 
 /-- unlock of one level (`U4`) on a key nobody waits for: `locked` already lowered -/
 theorem dec_value (db : DB) (c : Cmd) (data : Option Bytes) (h : Nat) (c' : Cmd) (f : Bytes) (cell' : Option Cell)
